@@ -366,7 +366,7 @@ pub fn close_checks(cfg: &Config, mode: &str, pre: &Snapshot, bytes: &[u8], m: &
             Ok(mut h2) => match snapshot(h2.p()) {
                 Err(p) => out.push(vio(cfg, "no-panic", last, "snapshot-panic", p, full)),
                 Ok(s2) => {
-                    let (want, s2b) = representable_only(&pre.normalized(), &s2);
+                    let (want, s2b) = representable_only(&pre.normalized(), &s2.normalized());
                     if let Some(d) = want.diff(&s2b) {
                         out.push(vio(cfg, "roundtrip", last, &format!("{}:{}", mode, diff_class(&d)), format!("closed by {}, reopened: before close vs after reopen: {}", mode, d), full));
                     } else {
@@ -465,8 +465,10 @@ fn decoded_vs_model(cfg: &Config, mode: &str, d: &dec::Decoded, m: &Model, full:
             Some(t) => t,
             None => continue,
         };
-        let want_cols: Vec<(String, i32)> = tm.cols.iter().map(|c| (c.name.clone(), c.type_word())).collect();
-        if dt.cols != want_cols {
+        // (the 0x100 / 0x400 bits are outside every property: masked)
+        let want_cols: Vec<(String, i32)> = tm.cols.iter().map(|c| (c.name.clone(), c.type_word() & !0x500)).collect();
+        let got_cols: Vec<(String, i32)> = dt.cols.iter().map(|(n, t)| (n.clone(), t & !0x500)).collect();
+        if got_cols != want_cols {
             out.push(vio(cfg, "wellformed", last, &format!("{}:catalog-columns", mode), format!("_Columns describes {} as {:?}, expected {:?}", name, dt.cols, want_cols), full));
             continue;
         }
